@@ -146,12 +146,123 @@ fn file_types_recoverable(f: &MonoFile) -> Option<&'static str> {
     f.toplevels.iter().find_map(|f| types_recoverable(&f.body))
 }
 
+/// Closedness of the REAL Lift output, independent of the model: a lifted function must not
+/// mention a name that is bound (parameter or `let`) somewhere in the file unless it binds it itself.
+fn lift_binders(e: &compiler::lift::LiftExpr, acc: &mut std::collections::BTreeSet<String>) {
+    use compiler::lift::LiftExpr as E;
+    match e {
+        E::EVar { .. } | E::EPrim { .. } => {}
+        E::EConstr { args: items, .. } | E::ETuple { items, .. } | E::EArray { items, .. } => items.iter().for_each(|x| lift_binders(x, acc)),
+        E::ELet { name, value, body, .. } => {
+            acc.insert(name.clone());
+            lift_binders(value, acc);
+            lift_binders(body, acc);
+        }
+        E::EMatch { expr, arms, default, .. } => {
+            lift_binders(expr, acc);
+            arms.iter().for_each(|a| lift_binders(&a.body, acc));
+            if let Some(d) = default {
+                lift_binders(d, acc);
+            }
+        }
+        E::EIf { cond, then_branch, else_branch, .. } => {
+            lift_binders(cond, acc);
+            lift_binders(then_branch, acc);
+            lift_binders(else_branch, acc);
+        }
+        E::EWhile { cond, body, .. } => {
+            lift_binders(cond, acc);
+            lift_binders(body, acc);
+        }
+        E::EGo { expr, .. } | E::EConstrGet { expr, .. } | E::EUnary { expr, .. } | E::EToDyn { expr, .. } | E::EProj { tuple: expr, .. } => lift_binders(expr, acc),
+        E::EBinary { lhs, rhs, .. } => {
+            lift_binders(lhs, acc);
+            lift_binders(rhs, acc);
+        }
+        E::ECall { func, args, .. } | E::EDynCall { receiver: func, args, .. } => {
+            lift_binders(func, acc);
+            args.iter().for_each(|x| lift_binders(x, acc));
+        }
+    }
+}
+
+fn lift_unbound(e: &compiler::lift::LiftExpr, bound: &mut Vec<String>, locals: &std::collections::BTreeSet<String>, bad: &mut Vec<String>) {
+    use compiler::lift::LiftExpr as E;
+    match e {
+        E::EVar { name, .. } => {
+            if locals.contains(name) && !bound.iter().any(|b| b == name) && !bad.contains(name) {
+                bad.push(name.clone());
+            }
+        }
+        E::EPrim { .. } => {}
+        E::EConstr { args: items, .. } | E::ETuple { items, .. } | E::EArray { items, .. } => items.iter().for_each(|x| lift_unbound(x, bound, locals, bad)),
+        E::ELet { name, value, body, .. } => {
+            lift_unbound(value, bound, locals, bad);
+            bound.push(name.clone());
+            lift_unbound(body, bound, locals, bad);
+            bound.pop();
+        }
+        E::EMatch { expr, arms, default, .. } => {
+            lift_unbound(expr, bound, locals, bad);
+            // arm heads name the temporaries the arm body binds afterwards: not uses
+            arms.iter().for_each(|a| lift_unbound(&a.body, bound, locals, bad));
+            if let Some(d) = default {
+                lift_unbound(d, bound, locals, bad);
+            }
+        }
+        E::EIf { cond, then_branch, else_branch, .. } => {
+            lift_unbound(cond, bound, locals, bad);
+            lift_unbound(then_branch, bound, locals, bad);
+            lift_unbound(else_branch, bound, locals, bad);
+        }
+        E::EWhile { cond, body, .. } => {
+            lift_unbound(cond, bound, locals, bad);
+            lift_unbound(body, bound, locals, bad);
+        }
+        E::EGo { expr, .. } | E::EConstrGet { expr, .. } | E::EUnary { expr, .. } | E::EToDyn { expr, .. } | E::EProj { tuple: expr, .. } => lift_unbound(expr, bound, locals, bad),
+        E::EBinary { lhs, rhs, .. } => {
+            lift_unbound(lhs, bound, locals, bad);
+            lift_unbound(rhs, bound, locals, bad);
+        }
+        E::ECall { func, args, .. } | E::EDynCall { receiver: func, args, .. } => {
+            lift_unbound(func, bound, locals, bad);
+            args.iter().for_each(|x| lift_unbound(x, bound, locals, bad));
+        }
+    }
+}
+
+/// `(function, variable)` pairs: the function mentions a local of another function
+pub fn lift_not_closed(f: &compiler::lift::LiftFile) -> Vec<(String, String)> {
+    let mut locals = std::collections::BTreeSet::new();
+    for t in &f.toplevels {
+        for (p, _) in &t.params {
+            locals.insert(p.clone());
+        }
+        lift_binders(&t.body, &mut locals);
+    }
+    // a local spelled like a top-level function is resolved as the function: not a dangling use
+    for t in &f.toplevels {
+        locals.remove(&t.name);
+    }
+    let mut out = Vec::new();
+    for t in &f.toplevels {
+        let mut bound: Vec<String> = t.params.iter().map(|(p, _)| p.clone()).collect();
+        let mut bad = Vec::new();
+        lift_unbound(&t.body, &mut bound, &locals, &mut bad);
+        out.extend(bad.into_iter().map(|v| (t.name.clone(), v)));
+    }
+    out
+}
+
 pub fn lift_case(id: &str, c: &Compilation, out: &mut String) {
     let n_user = c.mono.toplevels.len();
     let mut input = vec![tagged("gensym", vec![n(gensym_start(c, n_user))]), dump::mono_file(&c.mono)];
     input.extend(env_in(c));
     let mut output = vec![dump::lift_file(&c.lambda)];
     output.extend(env_out(c));
+    for (f, v) in lift_not_closed(&c.lambda) {
+        writeln!(out, "{}\tUNBOUND\t{}\t{}", id, f, v).unwrap();
+    }
     if let Some(k) = file_types_recoverable(&c.mono) {
         writeln!(out, "{}\tTYLOSS\t{}", id, k).unwrap();
     }
@@ -211,6 +322,28 @@ pub fn main(args: &util::Args) {
             one(&id, util::compile_text(&dir, &src), &src, None, &mut out);
         }
         let _ = std::fs::remove_dir_all(&dir);
+    }
+    // capture sites: every context `collect_captured` has to walk × kind of outer variable × nesting depth
+    {
+        let dir = util::scratch_dir("c08s");
+        let (mut n_site, mut n_rej) = (0usize, 0usize);
+        for (ci, cx) in crate::progen::SITE_CTXS.iter().enumerate() {
+            for (ki, kind) in crate::progen::SITE_KINDS.iter().enumerate() {
+                for depth in 1..=3usize {
+                    let mut root = crate::rng::Rng::new(args.seed);
+                    let mut rng = root.fork(0x51_7E00 + (ci * 64 + ki * 4 + depth) as u64);
+                    let Some(src) = crate::progen::capture_site_program(cx, kind, depth, &mut rng) else { continue };
+                    let id = format!("site:{}:{}:d{}", cx, kind, depth);
+                    if one(&id, util::compile_text(&dir, &src), &src, None, &mut out) {
+                        n_site += 1;
+                    } else {
+                        n_rej += 1;
+                    }
+                }
+            }
+        }
+        let _ = std::fs::remove_dir_all(&dir);
+        writeln!(out, "#SITES\taccepted={} rejected={}", n_site, n_rej).unwrap();
     }
     // generated closure programs: main stream (flows the pass rewrites) and, every fourth
     // program, exactly one flow outside the rewriting
